@@ -98,14 +98,19 @@ def install(eng):
 
     # ---- spec hashes (interface level)
     eng.cls("SpecHashes")
-    vc.f_changed = z3.Function("Changed", vc.Hashes.sort(), vc.Target.sort(), z3.BoolSort())
-    eng.fn("Changed")(lambda e, st, H, t: V(T.BOOL, vc.f_changed(H.z, t.z)))
+    eng.classes["SpecHashes"].fields["chg"] = T.SetT(vc.Target)
 
-    def stale(fs, H, t):
+    def changed(st, H, t):
+        return z3.Select(z3.Select(st.heap[("SpecHashes", "chg")], H), t)
+
+    vc.changed = changed
+    eng.fn("Changed")(lambda e, st, H, t: V(T.BOOL, changed(st, H.z, t.z)))
+
+    def stale(st, fs, H, t):
         o, i = vc.Path.fresh("o"), vc.Path.fresh("i")
         outs, ins = vc.f_Outs(t), vc.f_Ins(t)
         return z3.Or(
-            vc.f_changed(H, t),
+            changed(st, H, t),
             outs == emptyP,
             z3.Exists([o], z3.And(z3.Select(outs, o), z3.Not(vc.f_exists(fs, o)))),
             z3.Exists([i, o], z3.And(z3.Select(ins, i), z3.Select(outs, o), vc.f_mtime(fs, i) > vc.f_mtime(fs, o))))
@@ -114,4 +119,78 @@ def install(eng):
 
     @eng.fn("Stale")
     def _stale(e, st, t, fs, H):
-        return V(T.BOOL, stale(fs.z, H.z, t.z))
+        return V(T.BOOL, stale(st, fs.z, H.z, t.z))
+
+    # ================================================================== graph / scheduling vocabulary
+    from pyvc.engine import FnRef
+    vc.Graph = T.ObjT("Graph")
+    depdefault = lambda e: TS.empty()
+    vc.DepsT = DDictT(vc.Target, TS, depdefault)
+    eng.cls("Graph", pyname="gwf.core:Graph",
+            fields={"dependencies": vc.DepsT, "dependents": DDictT(vc.Target, TS, depdefault),
+                    "targets": T.DictT(vc.Name, vc.Target), "provides": T.DictT(vc.Path, vc.Target),
+                    "unresolved": PS})
+    eng.universe("Hashes", vc.Hashes)
+    eng.spec_consts["Status"] = V(T.PY, gwf.core.Status)
+    eng.spec_consts["BackendStatus"] = V(T.PY, gwf.backends.base.BackendStatus)
+
+    def view(dd, t):  # dependency view of a defaultdict(set): missing key == empty set
+        return z3.If(z3.Select(vc.DepsT.dom(dd), t), z3.Select(vc.DepsT.vals(dd), t), TS.empty())
+
+    @eng.fn("DepsOf")
+    def _depsof(e, st, g, t):
+        dd = z3.Select(st.heap[("Graph", "dependencies")], g.z)
+        return V(TS, view(dd, t.z))
+
+    @eng.fn("DependentsOf")
+    def _dependentsof(e, st, g, t):
+        dd = z3.Select(st.heap[("Graph", "dependents")], g.z)
+        return V(TS, view(dd, t.z))
+
+    # immutable per-run functions used by the oracle Spec (DESIGN 3). They are uninterpreted: a proof
+    # holds for every graph, every backend answer and every file state.
+    vc.f_deps0 = z3.Function("deps0", vc.Target.sort(), TS.sort())
+    vc.f_rank = z3.Function("rank", vc.Target.sort(), z3.IntSort())
+    vc.f_bstat0 = z3.Function("bstat0", vc.Target.sort(), vc.BStatus.sort())
+    vc.f_stale0 = z3.Function("stale0", vc.Target.sort(), z3.BoolSort())
+    vc.f_SpecF = z3.Function("SpecF", vc.Target.sort(), vc.Status.sort())
+    vc.f_X = z3.Function("X", vc.Target.sort(), z3.BoolSort())  # an ARBITRARY closed superset of the endpoints
+    eng.fn("deps0")(lambda e, st, t: V(TS, vc.f_deps0(t.z)))
+    eng.fn("rank")(lambda e, st, t: V(T.INT, vc.f_rank(t.z)))
+    eng.fn("bstat0")(lambda e, st, t: V(vc.BStatus, vc.f_bstat0(t.z)))
+    eng.fn("stale0")(lambda e, st, t: V(T.BOOL, vc.f_stale0(t.z)))
+    eng.fn("SpecF")(lambda e, st, t: V(vc.Status, vc.f_SpecF(t.z)))
+    eng.fn("X")(lambda e, st, t: V(T.BOOL, vc.f_X(t.z)))
+    S, B = vc.Status, vc.BStatus
+
+    def needs(s):
+        return z3.Or(s == S.const("SHOULDRUN"), s == S.const("FAILED"), s == S.const("CANCELLED"))
+
+    vc.needs = needs
+    eng.fn("Needs")(lambda e, st, s: V(T.BOOL, needs(e.coerce(s, S).z)))
+    eng.spec_consts["NoTargets"] = V(TS, TS.empty())
+    eng.spec_consts["NoPaths"] = V(PS, PS.empty())
+
+    u, d = vc.Target.fresh("u"), vc.Target.fresh("d")
+    # Spec (DESIGN 3), from the statements of C01/C02: the backend's live/failed/cancelled answer wins,
+    # else shouldrun iff stale or some direct dependency is not complete, else completed.
+    notdone = z3.Exists([d], z3.And(z3.Select(vc.f_deps0(u), d), vc.f_SpecF(d) != S.const("COMPLETED")))
+    unfold = z3.If(vc.f_bstat0(u) == B.const("SUBMITTED"), S.const("SUBMITTED"),
+             z3.If(vc.f_bstat0(u) == B.const("RUNNING"), S.const("RUNNING"),
+             z3.If(vc.f_bstat0(u) == B.const("FAILED"), S.const("FAILED"),
+             z3.If(vc.f_bstat0(u) == B.const("CANCELLED"), S.const("CANCELLED"),
+             z3.If(z3.Or(notdone, vc.f_stale0(u)), S.const("SHOULDRUN"), S.const("COMPLETED"))))))
+    # definitional: SpecF exists and is unique by well-founded recursion over rank (lean/Meta.lean)
+    eng.axiom("spec", z3.ForAll([u], vc.f_SpecF(u) == unfold))
+    eng.axiom("rank", z3.ForAll([u, d], z3.Implies(z3.Select(vc.f_deps0(u), d), vc.f_rank(d) < vc.f_rank(u))))
+    eng.axiom("rank", z3.ForAll([u], vc.f_rank(u) >= 0))
+    # X is closed under dependencies (it is an arbitrary such set: see c_scheduling)
+    eng.axiom("cone", z3.ForAll([u, d], z3.Implies(z3.And(vc.f_X(u), z3.Select(vc.f_deps0(u), d)), vc.f_X(d))))
+
+    # ghost submission log (DESIGN 3) and the backend's current answers
+    eng.ghost("log_pos", T.DictT(vc.Target, T.INT))
+    eng.ghost("log_deps", T.MapT(vc.Target, TS))
+    eng.ghost("log_n", T.INT)
+    eng.ghost("bnow", T.MapT(vc.Target, vc.BStatus))
+    # interface view of a spec-hash store: the set of targets whose spec differs from the record
+    vc.FnRef = FnRef
